@@ -161,6 +161,16 @@ Example den_Y_refuted :
   lib_value_to_satoshi (cps "0.00000000000000002052587240060861 YBTC") None = Ok 2052587240060860.
 Proof. split; vm_compute; reflexivity. Qed.
 
+Example den_m_refuted :
+  fmt_fixed false 2023092840374333 5 ++ cps " mBTC" = cps "20230928403.74333 mBTC" /\
+  lib_value_to_satoshi (cps "20230928403.74333 mBTC") None = Ok 2023092840374332.
+Proof. split; vm_compute; reflexivity. Qed.
+
+Example den_h_parse_refuted :
+  fmt_fixed false 2081412615786479 10 ++ cps " hBTC" = cps "208141.2615786479 hBTC" /\
+  lib_value_to_satoshi (cps "208141.2615786479 hBTC") None = Ok 2081412615786478.
+Proof. split; vm_compute; reflexivity. Qed.
+
 (* 'da' cannot be parsed at all ('d' matches first); 'h' and larger: the default decimals cannot hold one unit *)
 Example den_da_refuted : lib_value_to_satoshi (cps "1 daBTC") None = Err.
 Proof. vm_compute; reflexivity. Qed.
